@@ -52,8 +52,8 @@ main = main_with_sys(
     build_cases,
     "c02_plugs_in_use",
     {
-        "quick": {"c02_states_checked": 3000, "set:activities": 9, "set:transitions": 25, "c02_full_plug_states": 50, "c02_full_base_states": 50, "c02_queued": 5, "sys_transitions": 20000},
-        "thorough": {"c02_states_checked": 100000, "set:activities": 11, "set:transitions": 40, "c02_full_plug_states": 1000, "c02_full_base_states": 1000, "c02_queued": 100, "c02_out_of_energy": 5, "sys_transitions": 500000},
+        "quick": {"c02_states_checked": 3000, "set:activities": 9, "set:transitions": 25, "c02_full_plug_states": 50, "c02_full_base_states": 50, "c02_queued": 5, "sys_transitions": 20000, "cosim_change_membership_of_station_in_use": 20},
+        "thorough": {"c02_states_checked": 100000, "set:activities": 11, "set:transitions": 40, "c02_full_plug_states": 1000, "c02_full_base_states": 1000, "c02_queued": 100, "c02_out_of_energy": 5, "sys_transitions": 500000, "cosim_change_membership_of_station_in_use": 80},
     },
     "generated contention scenarios (1-2 plugs / stalls for 6-20 low-charge vehicles) under hostile + built-in control, plus shipped Denver scenarios in the thorough tier; "
     "after every step (and in every state reached by the bounded systematic driver over four contention worlds) the counters are recomputed from the vehicles' activities. non-trivial = at least one plug in use during the run; distinct = distinct case hash",
